@@ -60,6 +60,9 @@ func VerifyNameErrorNSEC(msg *dns.Msg, nsecSet []dns.RR) error {
 	if covering == nil {
 		return ErrNSECMissingCoverage
 	}
+	if ancestorCutNSEC(covering, qname) {
+		return ErrNSECBadDelegation
+	}
 	// An NSEC whose next owner lies below qname does not deny qname: it
 	// shows that qname is an empty non-terminal, a name that exists
 	// (RFC 4035 §5.4, RFC 8020). Accepting it as a name error would let a
@@ -90,6 +93,22 @@ func VerifyNameErrorNSEC(msg *dns.Msg, nsecSet []dns.RR) error {
 		}
 	}
 	return ErrNSECMissingCoverage
+}
+
+// ancestorCutNSEC reports whether nsec sits at a zone cut or a DNAME above
+// name: its owner is a proper ancestor of name and its bitmap has NS
+// without SOA (the parent side of a delegation) or DNAME. Such a record
+// says nothing about names below its owner — they belong to the child
+// zone, or are redirected — and must not be used to deny them (RFC 4035
+// §5.4, RFC 6840 §4.1 and §4.4). The NSEC3 path applies the same rule to
+// its closest encloser.
+func ancestorCutNSEC(nsec *dns.NSEC, name string) bool {
+	owner, cn := dns.CanonicalName(nsec.Header().Name), dns.CanonicalName(name)
+	if owner == cn || !dns.IsSubDomain(owner, cn) {
+		return false
+	}
+	return typesSet(nsec.TypeBitMap, dns.TypeDNAME) ||
+		(typesSet(nsec.TypeBitMap, dns.TypeNS) && !typesSet(nsec.TypeBitMap, dns.TypeSOA))
 }
 
 // closestEncloserFromNSEC derives the closest encloser of qname from the
@@ -173,6 +192,15 @@ func VerifyNODATANSEC(msg *dns.Msg, nsecSet []dns.RR) error {
 			if q.Qtype == dns.TypeDS && typesSet(nsec.TypeBitMap, dns.TypeSOA) {
 				return ErrNSECBadDelegation
 			}
+			// The converse: the parent side of a cut (NS without SOA)
+			// is authoritative for DS and for nothing else at this
+			// name. Every other type lives in the child zone, and the
+			// parent answers it with a referral, never with NODATA
+			// (RFC 6840 §4.1).
+			if q.Qtype != dns.TypeDS && typesSet(nsec.TypeBitMap, dns.TypeNS) &&
+				!typesSet(nsec.TypeBitMap, dns.TypeSOA) {
+				return ErrNSECBadDelegation
+			}
 
 			return nil
 		}
@@ -196,6 +224,9 @@ func VerifyNODATANSEC(msg *dns.Msg, nsecSet []dns.RR) error {
 	}
 	if covering == nil {
 		return ErrNSECMissingCoverage
+	}
+	if ancestorCutNSEC(covering, qname) {
+		return ErrNSECBadDelegation
 	}
 	ce := closestEncloserFromNSEC(qname, covering)
 	if ce == "" {
